@@ -541,3 +541,10 @@ def h2(ctx: Ctx) -> None:
     from .c10 import r3 as record_fields_rule
 
     record_fields_rule(ctx)
+
+
+@rule("C04.H3", "mechanism shared with C02: an order enters a book once (OrderBook.add stamps the acceptance time the lifetime is counted from and files the order under its expiry time; only Market._add_order calls it)", "T2 who-may-call + T1 (same rule as C02.R3)", floor=5)
+def h3(ctx: Ctx) -> None:
+    from .c02 import r3 as enter_once_rule
+
+    enter_once_rule(ctx)
